@@ -94,10 +94,104 @@ def diffs(lhs, rhs):
     return out
 
 
-def assert_equal(res, name, lhs, rhs, assumptions, tol=1e-8, timeout_ms=60000, logic=None, chunk=8):
+class _Abstraction:
+    """Sound linear relaxation of polynomial terms over box-bounded variables: every distinct nonlinear monomial is
+    replaced by a fresh real constrained to the interval the monomial can take on the box.  `unsat` of the relaxed
+    (LRA) query implies `unsat` of the original (NRA) one; `sat` says nothing and the original query is asked."""
+    def __init__(s, ranges):
+        s.ranges = ranges          # z3 var id -> (lo, hi)
+        s.mono = {}
+        s.cons = []
+
+    def rng(s, v):
+        r = s.ranges.get(v.get_id())
+        if r is None:
+            raise ValueError("variable without a box")
+        return r
+
+    def term(s, t):
+        if z3.is_rational_value(t) or z3.is_int_value(t):
+            return t
+        if z3.is_const(t) and t.decl().kind() == z3.Z3_OP_UNINTERPRETED:
+            s.rng(t)
+            return t
+        k = t.decl().kind()
+        if k == z3.Z3_OP_ADD:
+            return z3.Sum([s.term(c) for c in t.children()])
+        if k == z3.Z3_OP_SUB:
+            ch = [s.term(c) for c in t.children()]
+            return ch[0] - z3.Sum(ch[1:]) if len(ch) > 1 else -ch[0]
+        if k == z3.Z3_OP_UMINUS:
+            return -s.term(t.arg(0))
+        if k == z3.Z3_OP_MUL or k == z3.Z3_OP_POWER:
+            coeff = Fraction(1); fac = []
+            stack = [t]
+            while stack:
+                x = stack.pop()
+                if z3.is_rational_value(x):
+                    coeff *= Fraction(x.numerator_as_long(), x.denominator_as_long())
+                elif z3.is_app(x) and x.decl().kind() == z3.Z3_OP_MUL:
+                    stack.extend(x.children())
+                elif z3.is_app(x) and x.decl().kind() == z3.Z3_OP_POWER:
+                    b, e = x.arg(0), x.arg(1)
+                    if not (z3.is_rational_value(e) and e.denominator_as_long() == 1 and 1 <= e.numerator_as_long() <= 6):
+                        raise ValueError("power")
+                    stack.extend([b] * e.numerator_as_long())
+                elif z3.is_const(x) and x.decl().kind() == z3.Z3_OP_UNINTERPRETED:
+                    fac.append(x)
+                else:
+                    raise ValueError("non-polynomial factor")
+            if not fac:
+                return z3.RealVal(coeff)
+            if len(fac) == 1:
+                return fac[0] * z3.RealVal(coeff)
+            fac.sort(key=lambda v: v.get_id())
+            key = tuple(v.get_id() for v in fac)
+            m = s.mono.get(key)
+            if m is None:
+                m = s.mono[key] = z3.FreshReal("mono")
+                lo, hi = Fraction(1), Fraction(1)
+                i = 0
+                while i < len(fac):
+                    j = i
+                    while j < len(fac) and fac[j].get_id() == fac[i].get_id():
+                        j += 1
+                    a, b = s.rng(fac[i]); p = j - i
+                    cands = [Fraction(a) ** p, Fraction(b) ** p]
+                    plo, phi = min(cands), max(cands)
+                    if p % 2 == 0 and a <= 0 <= b:
+                        plo = Fraction(0)
+                    prods = [lo * plo, lo * phi, hi * plo, hi * phi]
+                    lo, hi = min(prods), max(prods)
+                    i = j
+                s.cons += [m >= z3.RealVal(lo), m <= z3.RealVal(hi)]
+            return m * z3.RealVal(coeff)
+        raise ValueError("non-polynomial term")
+
+
+def _box_ranges(assumptions):
+    """variable boxes read off assumptions of the form v >= c, v <= c"""
+    lo, hi, var = {}, {}, {}
+    for a in assumptions:
+        if not isinstance(a, z3.ExprRef) or a.num_args() != 2:
+            continue
+        l, r = a.arg(0), a.arg(1)
+        if not (z3.is_const(l) and l.decl().kind() == z3.Z3_OP_UNINTERPRETED and z3.is_rational_value(r)):
+            continue
+        c = Fraction(r.numerator_as_long(), r.denominator_as_long())
+        k = a.decl().kind()
+        if k == z3.Z3_OP_GE:
+            lo[l.get_id()] = max(c, lo.get(l.get_id(), c))
+        elif k == z3.Z3_OP_LE:
+            hi[l.get_id()] = min(c, hi.get(l.get_id(), c))
+    return {i: (lo[i], hi[i]) for i in lo if i in hi}
+
+
+def assert_equal(res, name, lhs, rhs, assumptions, tol=1e-8, timeout_ms=60000, logic=None, chunk=8, relax=False):
     """Query: exists an assignment within `assumptions` with |lhs_i - rhs_i| > tol for some i?
     Returns (verdict, model, index of a violated entry or None).  Entries whose difference is a numeral
-    are decided arithmetically (and count as violated if above tol)."""
+    are decided arithmetically (and count as violated if above tol).
+    relax=True: polynomial differences are first asked in their monomial relaxation (LRA, sound for unsat)."""
     if len(lhs) != len(rhs):
         raise HarnessError("%s: length mismatch %d vs %d" % (name, len(lhs), len(rhs)))
     ds = diffs(lhs, rhs)
@@ -126,6 +220,18 @@ def assert_equal(res, name, lhs, rhs, assumptions, tol=1e-8, timeout_ms=60000, l
     nchunks = (len(sym) + chunk - 1) // chunk
     for c in range(nchunks):
         part = sym[c * chunk:(c + 1) * chunk]
+        if relax:
+            try:
+                ab = _Abstraction(_box_ranges(assumptions))
+                lin = [ab.term(z3.simplify(d, som=True)) for _, d in part]
+                goal = z3.Or([z3.Or(d > t, d < -t) for d in lin])
+                v, _ = solve(res, "%s [monomial relaxation, %d monomials%s]" % (name, len(ab.mono), "" if nchunks == 1 else ", entries %d/%d" % (c + 1, nchunks)),
+                             list(assumptions) + ab.cons + [goal], timeout_ms=timeout_ms)
+                if v == "unsat":
+                    continue
+                res.queries.pop()        # relaxation inconclusive: ask the exact query below
+            except ValueError:
+                pass
         goal = z3.Or([z3.Or(d > t, d < -t) for _, d in part])
         v, mdl = solve(res, name if nchunks == 1 else "%s [entries %d/%d]" % (name, c + 1, nchunks),
                        list(assumptions) + [goal], timeout_ms=timeout_ms, logic=logic)
